@@ -898,6 +898,12 @@ func (en *Engine) store(st *State, addr, val Val) {
 	}
 	if ia, ok := addr.(*IndexAddrV); ok {
 		delete(st.heap, "slicecomp:"+ia.X.Key())
+		if c, has := st.heap["copyseg:"+ia.X.Key()]; has {
+			k, _ := constInt(c.val.(*TupleV).Vals[0])
+			if i, isC := constInt(ia.I); !isC || i >= k {
+				delete(st.heap, "copyseg:"+ia.X.Key())
+			}
+		}
 	}
 	st.heap[k] = cell{addr, val}
 }
